@@ -102,6 +102,27 @@ def _exclusive(b, edge_dst, other_dsts, stop):
     return mine - others
 
 
+def written_value_switch(wr):
+    """the test in Writer::write that tells a value from a tombstone: (block, [Some-side dsts],
+    [None-side dsts]) for `match value`, `value.is_some()`, `value.is_none()` (also through a
+    `let is_tombstone = …`, negated or not)"""
+    for bb in sorted(wr.live_blocks()):
+        info = wr.switch_info(bb)
+        if not info:
+            continue
+        if info["kind"] == "variant" and (access_path(info["on"]) or "").endswith("value") and set(sum(info["arms"].values(), [])) >= {"Some", "None"}:
+            return bb, [e.dst for e in wr.succ[bb] if info["arms"].get(e.dst) == ["Some"]], [e.dst for e in wr.succ[bb] if info["arms"].get(e.dst) == ["None"]]
+        if info["kind"] == "bool":
+            o = peel_var(info["on"])
+            neg = False
+            while o[0] == "un" and o[1] == "Not":
+                o, neg = peel_var(o[2]), not neg
+            if o[0] == "call" and o[1] and o[1].split("::")[-1] in ("is_some", "is_none") and o[1].split("::")[-2] == "Option" and o[2] and (access_path(o[2][0]) or "").endswith("value"):
+                some_when = (o[1].split("::")[-1] == "is_some") != neg
+                return bb, [e.dst for e in wr.succ[bb] if info["arms"].get(e.dst) == [some_when]], [e.dst for e in wr.succ[bb] if info["arms"].get(e.dst) == [not some_when]]
+    return None, [], []
+
+
 def _value_switch(b, pred_on):
     for bb in sorted(b.live_blocks()):
         info = b.switch_info(bb)
@@ -118,12 +139,10 @@ def s2_live_vs_recovery(ctx):
     put = prog.one("storage::bitcask::Writer::put")
     dele = prog.one("storage::bitcask::Writer::delete")
     wr = prog.one("storage::bitcask::Writer::write")
-    wbb, winfo = _value_switch(wr, lambda i: (i["kind"] == "bool" and "is_some" in origin_str(i["on"]) and "value" in origin_str(i["on"])) or (i["kind"] == "variant" and (access_path(i["on"]) or "").endswith("value")))
+    wbb, t_dst, f_dst = written_value_switch(wr)
     if wbb is None:
         r.unrec(fam_name(wr), "test of the written value (Some/None)", short_span(wr.span), "not found")
         return r
-    t_dst = [e.dst for e in wr.succ[wbb] if winfo["arms"].get(e.dst) in ([True], ["Some"])]
-    f_dst = [e.dst for e in wr.succ[wbb] if winfo["arms"].get(e.dst) in ([False], ["None"])]
     rets = {bb for bb in wr.live_blocks() if wr.term(bb)["k"] == "return"}
     w_some = _effects_in(wr, _exclusive(wr, t_dst[0], f_dst, rets), prog) if t_dst else set()
     w_none = _effects_in(wr, _exclusive(wr, f_dst[0], t_dst, rets), prog) if f_dst else set()
@@ -410,9 +429,12 @@ def s4_resp_tag_tables(ctx):
         else:
             enc[labs[0]] = "unimplemented" if labs[0] == "Array" else None
     # Array is written by write_array
-    afam = prog.family("net::connection::Connection::write_array")
-    for ab in afam:
+    ab, a0, astop = array_writer_region(prog)
+    if ab is not None:
+        region = reach(ab, [a0], blocked_edges=lambda e: e.kind in ("unwind", "ydrop"), blocked_blocks=astop)
         for _, bb, t in calls_in([ab], "tokio::io::AsyncWriteExt::write_u8"):
+            if bb not in region:
+                continue
             v = const_int(arg_origin(ab, t, 1))
             if v is not None and "Array" not in enc or enc.get("Array") == "unimplemented":
                 enc["Array"] = chr(v)
@@ -589,6 +611,8 @@ def s10_check_parse_readers(ctx):
         r.unrec("net::frame::Frame", "parse / check bodies", "src/net/frame.rs", "not found")
         return r
 
+    BASE_READERS = {"get_line", "get_integer", "get_byte", "peek_byte", "skip", "ascii_to_i64"}
+
     def arms(b):
         for bb in sorted(b.live_blocks()):
             info = b.switch_info(bb)
@@ -607,7 +631,15 @@ def s10_check_parse_readers(ctx):
                         if t["k"] == "call":
                             cbody = prog.callee_body(t)
                             if cbody is not None and cbody.name.startswith("net::frame::") and cbody.path not in (b.path,):
-                                called.add(cbody.name.split("::")[-1])
+                                nm = cbody.name.split("::")[-1]
+                                if nm in BASE_READERS or nm in ("parse_nested", "parse", "check_nested", "check"):
+                                    called.add(nm)
+                                else:
+                                    # a wrapper (`get_utf8_line`): what counts is the readers it reaches
+                                    for x2, bb2, t2 in transitive_calls(prog, [cbody]):
+                                        c2 = prog.callee_body(t2)
+                                        if c2 is not None and c2.name.split("::")[-1] in BASE_READERS and c2.name.startswith("net::frame::"):
+                                            called.add(c2.name.split("::")[-1])
                     for lab in labs:
                         out[chr(int(lab))] = called
                 return bb, out
